@@ -6,12 +6,12 @@ CONFIG = {
     "sources": ["VProps/C03.lean", "VProps/C04.lean", "VProps/C05.lean", "VModel/EventParse.lean", "VModel/EventSpec.lean",
                 "VModel/Redact.lean", "VModel/Hash.lean", "VModel/EventBuild.lean", "VProofs/EventParse.lean", "VProofs/RedactCongr.lean",
                 "VProofs/RedactLookup.lean", "VProofs/RedactCore.lean", "VProofs/RedactMaps.lean", "VProofs/RedactMain.lean",
-                "VProofs/RedactExact.lean"],
+                "VProofs/RedactExact.lean", "VProofs/EventBuildRoundtrip.lean"],
     "theorems": [
         "V.C03.tables_ok", "V.C03.referenceID_ignores_unsigned", "V.C03.eventID_ignores_unsigned",
         "V.C03.referenceID_ignores_signatures", "V.C03.eventID_ignores_signatures", "V.C03.eventID_redact_invariant",
         "V.C03.eventID_injective", "V.C03.hash_injective", "V.C03.eventID_alphabet", "V.C03.v12_create_roomID",
-        "V.C03.v12_auth_first", "V.C03.reparse_same_partial", "V.C03.build_checked_partial",
+        "V.C03.v12_auth_first", "V.C03.reparse_same_partial", "V.C03.build_checked_partial", "V.C03.build_roundtrip",
     ],
     "rule": "event.build: EventBuilder.Build itself against its model (VModel.EventBuild.build: struct marshalling with omitempty, "
             "format-1 references incl. the partial base64 decode of eventHashFromEventID, content hash, signEvent with the signature "
@@ -36,12 +36,16 @@ CONFIG = {
         "base64: VModel.B64 / VProofs.B64 (C17)",
     ],
     "assumptions": [
-        "EventBuilder.Build is modelled (VModel.EventBuild, tied by the op event.build) but the theorem build_roundtrip is MISSING: "
-        "proved are build_checked_partial (Build's result passed CheckFields, is not redacted, is the trusted parse of a canonical text) "
-        "and reparse_same_partial (a text accepted as trusted and as untrusted input with a valid content hash gives the same event "
-        "both ways); NOT derived: that the untrusted / headered re-parse of Build's output succeeds and that its content hash is "
-        "valid (both hold by construction of Build and are checked by event.roundtrip on real Build outputs of all 16 versions); "
-        "the headered round trip has no theorem",
+        "build_roundtrip (proved, all registered versions, all proto-events / times / origins / key IDs / format-1 random characters / "
+        "signature bytes): hypothesis ProtoOk = the three raw-JSON inputs of the proto-event (content, unsigned, signatures) are JSON "
+        "values, i.e. their number literals follow the JSON grammar (true of every parsed text; json.Marshal refuses a RawJSON that is not). "
+        "Conclusion: the untrusted re-parse of e.JSON() succeeds with the same version, struct, type, sender, room ID, state key, content, "
+        "redacts, depth, origin_server_ts, prev / auth lists, stored and reported event ID, RoomID(), PrevEventIDs(), AuthEventIDs(), "
+        "not redacted, CheckFields ok; the trusted re-parse and the headered re-parse return the very same event. The model of Build now "
+        "hands the trusted constructor the canonical TEXT (parse of encodeCanon), as the Go code does, so a built event holds the "
+        "canonical value (members sorted, -0 as 0). The headered clause quantifies over every text denoting the value ToHeaderedJSON "
+        "writes in sjson's member order (event members, then _room_version, _event_id); the driver's op feeds the canonical rendering "
+        "of that value instead (correspondence only for that spelling)",
         "eventID_injective concludes equality of the reference bytes (canonical encoding of the redacted, signature- and "
         "unsigned-stripped event); the step 'proto-events differing in a hashed field give different hashes.sha256' is "
         "hash_injective; extracting the hashes member from equal canonical encodings is not formalised (C01.encodeCanon_injective "
